@@ -19,6 +19,9 @@ package nsqlookupd
 // mLive0(p, t, inact, life): at clock reading t the producer has pinged within `inact` and carries no tombstone younger than `life`.
 //@ pred mPinged(p *Producer, t int, inact int) := t - p.peerInfo.lastUpdate <= inact
 //@ pred mTombAt(p *Producer, t int, life int) := p.tombstoned && t - unixNano(p.tombstonedAt) < life
+// (round 3, area C) no element occurs twice
+//@ pred r3cDistinctProds(pp Producers) := forall d1 int, d2 int :: {pp[d1], pp[d2]} 0 <= d1 && d1 < d2 && d2 < len(pp) ==> pp[d1] != pp[d2]
+//@ pred r3cDistinctRegs(rr Registrations) := forall d1 int, d2 int :: {rr[d1], rr[d2]} 0 <= d1 && d1 < d2 && d2 < len(rr) ==> rr[d1] != rr[d2]
 //@ pred mValidProds(pp Producers) := forall i int :: {pp[i]} 0 <= i && i < len(pp) ==> pp[i] != nil && pp[i].peerInfo != nil
 
 // FilterByActive reads the clock once (time.Now, T0 = lastNow) and then once per tombstoned producer (time.Since, all
@@ -36,6 +39,12 @@ package nsqlookupd
 //@        (exists j int :: {result[j]} 0 <= j && j < len(result) && result[j] == pp[i])
 //@   ensures[no-more-than-input] len(result) <= len(pp)
 //@   ensures[fresh] fresh(result)
+//   (round 3, area C) ORDER: the kept producers appear in the same relative order as in the input, none twice. Witness-free
+//   form: when the input has no repeated element (FindProducers: one entry per peer), position in the input is a function of the
+//   element, so "result[j1] before result[j2]" must imply "its input position is smaller" for EVERY pair of positions.
+//@   ensures[order-preserved] r3cDistinctProds(pp) ==> forall j1 int, j2 int, i1 int, i2 int :: {result[j1], result[j2], pp[i1], pp[i2]}
+//@        0 <= j1 && j1 < j2 && j2 < len(result) && 0 <= i1 && i1 < len(pp) && 0 <= i2 && i2 < len(pp) && pp[i1] == result[j1] && pp[i2] == result[j2] ==> i1 < i2
+//@   ensures[no-duplicates] r3cDistinctProds(pp) ==> r3cDistinctProds(result)
 //@   modifies lastNow, mClock
 //@   onreturn mKept := result
 //@   onreturn mKeptFrom := pp
@@ -47,6 +56,10 @@ package nsqlookupd
 //@     invariant[from-input] forall j int :: {results[j]} 0 <= j && j < len(results) ==> (exists i int :: {pp[i]} 0 <= i && i <= rangeindex && pp[i] == results[j])
 //@     invariant[complete] forall i int :: {pp[i]} 0 <= i && i <= rangeindex && mPinged(pp[i], unixNano(now), inactivityTimeout) && !mTombAt(pp[i], unixNano(now), tombstoneLifetime) ==>
 //@        (exists j int :: {results[j]} 0 <= j && j < len(results) && results[j] == pp[i])
+//@     invariant[positions] r3cDistinctProds(pp) ==> forall j int, i int :: {results[j], pp[i]} 0 <= j && j < len(results) && 0 <= i && i < len(pp) && pp[i] == results[j] ==> i <= rangeindex
+//@     invariant[order] r3cDistinctProds(pp) ==> forall j1 int, j2 int, i1 int, i2 int :: {results[j1], results[j2], pp[i1], pp[i2]}
+//@        0 <= j1 && j1 < j2 && j2 < len(results) && 0 <= i1 && i1 < len(pp) && 0 <= i2 && i2 < len(pp) && pp[i1] == results[j1] && pp[i2] == results[j2] ==> i1 < i2
+//@     invariant[no-duplicates] r3cDistinctProds(pp) ==> r3cDistinctProds(results)
 
 //@ func (rr Registrations) SubKeys() []string
 //@   props C14 C15
@@ -67,6 +80,10 @@ package nsqlookupd
 //@        (exists j int :: {result[j]} 0 <= j && j < len(result) && result[j] == rr[i])
 //@   ensures[no-more-than-input] len(result) <= len(rr)
 //@   ensures[fresh] fresh(result)
+//   (round 3, area C) ORDER: same relative order as the input, none twice (witness-free form, see FilterByActive).
+//@   ensures[order-preserved] r3cDistinctRegs(rr) ==> forall j1 int, j2 int, i1 int, i2 int :: {result[j1], result[j2], rr[i1], rr[i2]}
+//@        0 <= j1 && j1 < j2 && j2 < len(result) && 0 <= i1 && i1 < len(rr) && 0 <= i2 && i2 < len(rr) && rr[i1] == result[j1] && rr[i2] == result[j2] ==> i1 < i2
+//@   ensures[no-duplicates] r3cDistinctRegs(rr) ==> r3cDistinctRegs(result)
 //@   modifies
 //@   nochan
 //@   loop 0
@@ -75,6 +92,10 @@ package nsqlookupd
 //@        (exists i int :: {rr[i]} 0 <= i && i < len(rr) && rr[i] == output[j])
 //@     invariant[complete] forall i int :: {rr[i]} 0 <= i && i <= rangeindex && matches(rr[i], category, key, subkey) ==>
 //@        (exists j int :: {output[j]} 0 <= j && j < len(output) && output[j] == rr[i])
+//@     invariant[positions] r3cDistinctRegs(rr) ==> forall j int, i int :: {output[j], rr[i]} 0 <= j && j < len(output) && 0 <= i && i < len(rr) && rr[i] == output[j] ==> i <= rangeindex
+//@     invariant[order] r3cDistinctRegs(rr) ==> forall j1 int, j2 int, i1 int, i2 int :: {output[j1], output[j2], rr[i1], rr[i2]}
+//@        0 <= j1 && j1 < j2 && j2 < len(output) && 0 <= i1 && i1 < len(rr) && 0 <= i2 && i2 < len(rr) && rr[i1] == output[j1] && rr[i2] == output[j2] ==> i1 < i2
+//@     invariant[no-duplicates] r3cDistinctRegs(rr) ==> r3cDistinctRegs(output)
 
 // One PeerInfo per producer, same order.
 //@ func (pp Producers) PeerInfo() []*PeerInfo
@@ -88,16 +109,25 @@ package nsqlookupd
 //@     invariant fresh(results) && len(results) == rangeindex + 1 && rangeindex < len(pp)
 //@     invariant forall k int :: {results[k]} 0 <= k && k <= rangeindex ==> results[k] == pp[k].peerInfo
 
-// Every element of the slice is a value of the map (which values, and that none is missed, needs the visited set: ENGINE GAPS).
+// Every element of the slice is a value of the map, and every value of the map is an element of the slice.
+// r3cKeyedByID(pm): every producer of the map is a real one filed under its own peer id.
+//@ pred r3cKeyedByID(pm ProducerMap) := forall id string :: {pm[id]} has(pm, id) ==> pm[id] != nil && pm[id].peerInfo != nil && pm[id].peerInfo.id == id
 //@ func ProducerMap2Slice(pm ProducerMap) Producers
 //@   props C14 C15
 //@   ensures[from-map] forall j int :: {result[j]} 0 <= j && j < len(result) ==> (exists id string :: {pm[id]} has(pm, id) && pm[id] == result[j])
 //@   ensures[fresh] len(result) == 0 || fresh(result)
+//   (round 3, area C) COMPLETE direction: every value of the map appears in the slice; when the map files each producer under its
+//   own peer id (the registry's lock invariant [producers-valid]) no peer appears twice.
+//@   ensures[complete] forall id string :: {pm[id]} has(pm, id) ==> (exists j int :: {result[j]} 0 <= j && j < len(result) && result[j] == pm[id])
+//@   ensures[one-entry-per-peer] r3cKeyedByID(pm) ==> forall j1 int, j2 int :: {result[j1], result[j2]} 0 <= j1 && j1 < j2 && j2 < len(result) ==> result[j1].peerInfo.id != result[j2].peerInfo.id
 //@   modifies
 //@   nochan
 //@   loop 0
 //@     invariant (len(producers) == 0 && cap(producers) == 0) || fresh(producers)
 //@     invariant forall j int :: {producers[j]} 0 <= j && j < len(producers) ==> (exists id string :: {pm[id]} has(pm, id) && pm[id] == producers[j])
+//@     invariant[complete] forall id string :: {pm[id]} visited(id) ==> (exists j int :: {producers[j]} 0 <= j && j < len(producers) && producers[j] == pm[id])
+//@     invariant[from-visited] r3cKeyedByID(pm) ==> forall j int :: {producers[j]} 0 <= j && j < len(producers) ==> producers[j] != nil && producers[j].peerInfo != nil && visited(producers[j].peerInfo.id)
+//@     invariant[one-entry-per-peer] r3cKeyedByID(pm) ==> forall j1 int, j2 int :: {producers[j1], producers[j2]} 0 <= j1 && j1 < j2 && j2 < len(producers) ==> producers[j1].peerInfo.id != producers[j2].peerInfo.id
 
 // Ghost observation for the HTTP handlers: the most recent FindProducers answer and its query; the most recent FilterByActive
 // answer and its input.
@@ -105,6 +135,10 @@ package nsqlookupd
 //@ ghost mFoundCat string
 //@ ghost mFoundKey string
 //@ ghost mFoundSub string
+// (round 3, area C) the most recent FindProducers answer for category "client" (doNodes looks other categories up afterwards)
+//@ ghost r3cClientFound Producers
+//@ ghost r3cClientKey string
+//@ ghost r3cClientSub string
 //@ ghost mKept Producers
 //@ ghost mKeptFrom Producers
 
@@ -112,7 +146,7 @@ package nsqlookupd
 //@ pred mProdOf(r *RegistrationDB, k Registration, p *Producer) := hasProd(r, k, p.peerInfo.id) && r.registrationMap[k][p.peerInfo.id] == p
 
 // FindProducers: every producer returned is registered (at release of the read lock) under a key matching the query;
-// with wildcards no peer id occurs twice. (That no registered producer is missed needs the visited set: ENGINE GAPS.)
+// no peer id occurs twice; with an exact key no registered producer is missed.
 //@ func (r *RegistrationDB) FindProducers(category string, key string, subkey string) Producers
 //@   props C14 C15
 //@   requires r != nil
@@ -123,13 +157,21 @@ package nsqlookupd
 //@   ensures[exact-key] key != "*" && subkey != "*" && gk.Category == category && gk.Key == key && gk.SubKey == subkey ==>
 //@        forall j int :: {result[j]} 0 <= j && j < len(result) ==> atunlock(mProdOf(r, gk, now(result[j])))
 //@   ensures[absent-key-empty] key != "*" && subkey != "*" && gk.Category == category && gk.Key == key && gk.SubKey == subkey && !atunlock(hasKey(r, gk)) ==> len(result) == 0
-//@   ensures[one-entry-per-peer] (key == "*" || subkey == "*") ==> forall j1 int, j2 int :: {result[j1], result[j2]} 0 <= j1 && j1 < j2 && j2 < len(result) ==> result[j1].peerInfo.id != result[j2].peerInfo.id
+//@   ensures[one-entry-per-peer] forall j1 int, j2 int :: {result[j1], result[j2]} 0 <= j1 && j1 < j2 && j2 < len(result) ==> result[j1].peerInfo.id != result[j2].peerInfo.id
+//   (round 3, area C) COMPLETE direction, exact key (the only form the HTTP handlers use with validated names): every producer filed
+//   under the registration at release of the read lock is returned.
+//@   ensures[complete-exact] key != "*" && subkey != "*" && gk.Category == category && gk.Key == key && gk.SubKey == subkey ==>
+//@        forall id string :: {atunlock(r.registrationMap[gk][id])} atunlock(hasProd(r, gk, id)) ==>
+//@        (exists j int :: {result[j]} 0 <= j && j < len(result) && result[j] == atunlock(r.registrationMap[gk][id]))
 //@   ensures[fresh] len(result) == 0 || fresh(result)
 //@   modifies r.registrationMap, mapstore(map[Registration]ProducerMap), mapstore(ProducerMap)
 //@   onreturn mFound := result
 //@   onreturn mFoundCat := category
 //@   onreturn mFoundKey := key
 //@   onreturn mFoundSub := subkey
+//@   onreturn r3cClientFound := category == "client" ? result : r3cClientFound
+//@   onreturn r3cClientKey := category == "client" ? key : r3cClientKey
+//@   onreturn r3cClientSub := category == "client" ? subkey : r3cClientSub
 //@   nochan
 //@   loop 0
 //@     invariant fresh(results) && ((len(retProducers) == 0 && cap(retProducers) == 0) || fresh(retProducers))
